@@ -245,7 +245,10 @@ let predict (c : string) (obs : string) : string * string * bool =
         | true, Some t, Some (_, conn, _, _, _) ->
             (match ints_of '/' t, ints_of '/' conn with
              | Some [cn; at; bad; non], Some (_ :: accepted :: probes :: _) ->
-                 let good = cn = at && cn = accepted - probes && bad = 0 && non = 0 in
+                 (* at (connections the front opened behind that have been noticed by the recording servers) is the harness's own
+                    doing, not the gun's: informational, only bounded by the CONNECTs; the connections behind that carried requests
+                    are judged by conn_ok above *)
+                 let good = at <= cn && cn = accepted - probes && bad = 0 && non = 0 in
                  ((if good then " tun=" ^ t else " tun=outside-spec"), good)
              | _ -> (" tun=unparsable", false))
         | _ -> (" tun=missing", false)) in
